@@ -1,6 +1,7 @@
 import Chewing.Model.MapSpec
 import Chewing.Model.Layered
 import Chewing.Model.Syllable
+import Chewing.Model.Der
 /-!
 # Trie (read side, abstract) and TrieBuf — `src/dictionary/{trie,trie_buf}.rs` (C09)
 
@@ -10,7 +11,9 @@ leaf per key, keys in the breadth-first order of the index (children are sorted 
 so keys of equal length appear in lexicographic order), and inside a leaf the phrases in the order
 `TrieBuilder::write` sorted them.  `build` is `TrieBuilder::insert`* followed by `write`+`open`:
 `insert` replaces an existing (key, text) in place and appends otherwise; `write` stable-sorts each
-leaf with the comparator of `trie.rs` (`leafCmp`).
+leaf with the comparator of `trie.rs` (`leafCmp`, the total preorder of fix ddfe893).  That this abstract
+file is what C11's byte-level `write` / `Trie::new` / lookups produce is a theorem
+(`Proofs/TrieLink.lean`, `C09.file_layer_is_C11`).
 
 `Trie::lookup_first_n_phrases` walks the matching leaves, appends whole leaves, stops as soon as more
 than `first` phrases are collected and (since fix 4e93dec, F11) truncates to `first`.
@@ -81,17 +84,16 @@ def entries (t : List Leaf) : List Entry := t.flatMap (fun l => l.2.map (fun p =
 
 /-! ### `TrieBuilder` -/
 
-/-- UTF-8 length of a text in bytes (`str::len`) -/
-def byteLen (t : Text) : Nat := (t.map utf8Len).foldl (· + ·) 0
-
 def cmpNat (a b : Nat) : Ordering := if a < b then .lt else if b < a then .gt else .eq
 
-/-- the comparator of `TrieBuilder::write`: single characters keep their order; a single character
-    against a longer phrase compares byte lengths; otherwise frequency descending, then text descending -/
+/-- the comparator of `TrieBuilder::write` (since fix ddfe893 a total preorder): single characters
+    (`chars().count() == 1`) keep their order among themselves and go before longer phrases; longer
+    phrases by frequency descending, then by `str::cmp` — bytewise on the UTF-8 encoding — descending -/
 def leafCmp (a b : Phrase) : Ordering :=
   if a.text.length == 1 && b.text.length == 1 then .eq
-  else if a.text.length == 1 || b.text.length == 1 then cmpNat (byteLen a.text) (byteLen b.text)
-  else if a.freq == b.freq then cmpList b.text a.text
+  else if a.text.length == 1 then .lt
+  else if b.text.length == 1 then .gt
+  else if a.freq == b.freq then cmpList (Der.utf8Enc b.text) (Der.utf8Enc a.text)
   else cmpNat b.freq a.freq
 
 def leafLt (a b : Phrase) : Bool := leafCmp a b == .lt
